@@ -1,4 +1,12 @@
-(* R8: one-step simulation for the scheme start state, the scheme state and the no scheme state. *)
+(* R8: one-step simulation for the scheme start state, the scheme state and the no scheme state.
+   Hypotheses actually used (see the Check at the end):
+     sim_scheme_start : none;
+     sim_scheme       : std_cfg c (c_fail = false for the non-fatal error before the file state, the table of
+                        special schemes), base_rel (comparison of the base's scheme), base_wf (a special base
+                        has a list path: needed for the special relative or authority state);
+     sim_no_scheme    : base_rel.
+   The conjunct [file_host_ok] of st_rel is what makes the fourth early return of the scheme state under a
+   state override agree (the model treats a null host of a "file" URL like the empty host). *)
 From Verif Require Import Lib.Base Lib.Utf8 Lib.GoStr Model.Cfg Gen.Tables Gen.Options Model.Sets Model.Percent
      Model.Url Model.Host Model.Machine.
 From Verif Require Spec.Url Spec.Host Spec.BasicParser.
@@ -65,6 +73,7 @@ Section States.
   (* ---------------------------------------------------------------- *)
   Theorem sim_scheme_start : sim_for (fun st => st = SchemeStart).
   Proof.
+    clear Hfail Hspecial Hbase Hwf.   (* not needed here; keeps them out of the reach of lia *)
     intros mm sm Hst [Hs Hp He Hlo Hhi Hfl Hb].
     rewrite Hst in Hs, Hb. cbn [st_map] in Hs. cbn [st_rel] in Hb.
     destruct Hb as [Hbuf [Hsb [HR [Hlp Hfh]]]].
@@ -178,6 +187,7 @@ Section States.
         + discriminate. }
       destruct (r =? 58) eqn:E58; [|apply G34].
       (* ':' *)
+      assert (Hp0 : (0 <= p)%Z) by lia. assert (Hpn : (p < n_inp inp)%Z) by lia.
       set (u := m_url mm) in *. rewrite Hbuf.
       assert (Esu : isSpecialScheme c (u_scheme u) = SU.is_special_scheme (SU.u_scheme su)).
       { rewrite (RU.R_scheme u su HR). apply special_scheme_spec. exact Hspecial. }
@@ -229,10 +239,10 @@ Section States.
         constructor; unfold mk; cbn [m_state m_ptr m_eof m_buf m_at m_br m_pw m_url].
         - reflexivity.
         - reflexivity.
-        - lia.
-        - rewrite points_to_eof_spec. lia.
+        - clear - Hlo Hhi En; lia.
+        - rewrite points_to_eof_spec. clear - Hlo Hhi En; lia.
         - exact Hfl.
-        - destruct st'; try contradiction; cbn;
+        - destruct st'; try contradiction; cbn [st_rel st_map SB.m_url SB.m_buffer SB.set_state SB.set_buffer SB.set_url];
             (split; [reflexivity|]; split; [reflexivity|]; split; [exact Huu|]; try split; assumption).
         - discriminate. }
       destruct (SU.cps_eqb sbuf SU.sc_file) eqn:Ef.
@@ -243,33 +253,33 @@ Section States.
       { destruct sb_ eqn:Esb_.
         - apply (GC SpecialRelativeOrAuthority); [exact HR'|]. apply Hbnf; reflexivity.
         - apply (GC SpecialAuthoritySlashes); [exact HR'|exact I]. }
-      rewrite (remainingStartsWith_spec inp p [47]) by lia.
-      unfold input. rewrite (here_cons inp p) by lia. fold r. cbn [SB.remaining tl].
+      rewrite (remainingStartsWith_spec inp p [47] Hp0 Hpn).
+      unfold input. rewrite (here_cons inp p Hp0 Hpn). fold r. cbn [SB.remaining tl].
       destruct (SB.starts_with (SB.substring_from (map rv inp) (p + 1)) [47]) eqn:Esl.
-      - (* path or authority state, the pointer moves on *)
+      + (* path or authority state, the pointer moves on *)
         assert (En2 : (n_inp inp <=? p + 1)%Z = false).
         { destruct (n_inp inp <=? p + 1)%Z eqn:En2; [|reflexivity].
-          rewrite here_eof in Esl by lia. discriminate Esl. }
+          rewrite here_eof in Esl by (clear - En2; lia). discriminate Esl. }
         rewrite En2. cbn [out_rel].
         constructor; unfold mk; cbn [m_state m_ptr m_eof m_buf m_at m_br m_pw m_url st_map st_rel].
-        + reflexivity.
-        + reflexivity.
-        + lia.
-        + rewrite points_to_eof_spec. lia.
-        + exact Hfl.
-        + cbn. split; [reflexivity|]. split; [reflexivity|]. split; [exact HR'|exact Hlp'].
-        + discriminate.
-      - (* opaque path state *)
+        * reflexivity.
+        * reflexivity.
+        * clear - Hlo Hhi En En2; lia.
+        * rewrite points_to_eof_spec. clear - Hlo Hhi En En2; lia.
+        * exact Hfl.
+        * cbn. split; [reflexivity|]. split; [reflexivity|]. split; [exact HR'|exact Hlp'].
+        * discriminate.
+      + (* opaque path state *)
         cbn [out_rel].
         constructor; unfold mk; cbn [m_state m_ptr m_eof m_buf m_at m_br m_pw m_url st_map st_rel].
-        + reflexivity.
-        + reflexivity.
-        + lia.
-        + rewrite points_to_eof_spec. lia.
-        + exact Hfl.
-        + exists []. cbn. split; [reflexivity|]. split; [reflexivity|]. split; [reflexivity|].
+        * reflexivity.
+        * reflexivity.
+        * clear - Hlo Hhi En; lia.
+        * rewrite points_to_eof_spec. clear - Hlo Hhi En; lia.
+        * exact Hfl.
+        * exists []. cbn. split; [reflexivity|]. split; [reflexivity|]. split; [reflexivity|].
           exact (R_set_path_opaque u' su' [] HR').
-        + discriminate.
+        * discriminate.
   Qed.
 
   (* ---------------------------------------------------------------- *)
@@ -277,6 +287,7 @@ Section States.
   (* ---------------------------------------------------------------- *)
   Theorem sim_no_scheme : sim_for (fun st => st = NoScheme).
   Proof.
+    clear Hfail Hspecial Hwf.   (* not needed here; keeps them out of the reach of lia *)
     intros mm sm Hst [Hs Hp He Hlo Hhi Hfl Hb].
     rewrite Hst in Hs, Hb. cbn [st_map] in Hs. cbn [st_rel] in Hb.
     destruct Hb as [Hbuf [Hsb [HR Hlp]]].
@@ -342,6 +353,102 @@ Section States.
   Qed.
 End States.
 
+(* ------------------------------------------------------------------ *)
+(* the premises hold for concrete values: the input "a:" and the base "http:"  *)
+(* ------------------------------------------------------------------ *)
+Definition ex_inp : list rune := [Good 97; Good 58].
+Definition ex_base : url := set_scheme (empty_url []) [104;116;116;112].
+Definition ex_sbase : SU.surl := SU.with_scheme SU.new_url SU.sc_http.
+
+Lemma ex_R_new i : R (empty_url i) SU.new_url.
+Proof. constructor; try reflexivity. split; reflexivity. Qed.
+
+Example ex_base_rel : base_rel (Some ex_base) (Some ex_sbase).
+Proof. cbn [base_rel]. constructor; try reflexivity. split; reflexivity. Qed.
+
+Example ex_base_wf : base_wf (Some ex_sbase).
+Proof. intros sb E _. injection E as <-. reflexivity. Qed.
+
+Lemma ex_file_host_ok : file_host_ok SU.new_url.
+Proof. intros H. discriminate H. Qed.
+
+Example ex_before_scheme_start :
+  Rel_before ex_inp false (Some ex_sbase)
+    (mk SchemeStart (-1) false [] false false false (empty_url [97;58]))
+    (SB.mkM SU.new_url SB.SchemeStartState [] false false false 0).
+Proof.
+  constructor; cbn [mk m_state m_ptr m_eof m_buf m_at m_br m_pw m_url st_map SB.m_state SB.m_pointer st_rel SB.m_url SB.m_buffer].
+  - reflexivity.
+  - reflexivity.
+  - reflexivity.
+  - lia.
+  - reflexivity.
+  - repeat split.
+  - split; [reflexivity|]. split; [reflexivity|]. split; [apply ex_R_new|]. split; [reflexivity|apply ex_file_host_ok].
+Qed.
+
+Example ex_before_scheme :
+  Rel_before ex_inp false (Some ex_sbase)
+    (mk Scheme 0 false [97] false false false (empty_url [97;58]))
+    (SB.mkM SU.new_url SB.SchemeState [97] false false false 1).
+Proof.
+  constructor; cbn [mk m_state m_ptr m_eof m_buf m_at m_br m_pw m_url st_map SB.m_state SB.m_pointer st_rel SB.m_url SB.m_buffer].
+  - reflexivity.
+  - reflexivity.
+  - reflexivity.
+  - lia.
+  - reflexivity.
+  - repeat split.
+  - split; [reflexivity|]. split; [repeat constructor|]. split; [apply ex_R_new|]. split; [reflexivity|apply ex_file_host_ok].
+Qed.
+
+Example ex_before_no_scheme :
+  Rel_before ex_inp false (Some ex_sbase)
+    (mk NoScheme (-1) false [] false false false (empty_url [97;58]))
+    (SB.mkM SU.new_url SB.NoSchemeState [] false false false 0).
+Proof.
+  constructor; cbn [mk m_state m_ptr m_eof m_buf m_at m_br m_pw m_url st_map SB.m_state SB.m_pointer st_rel SB.m_url SB.m_buffer].
+  - reflexivity.
+  - reflexivity.
+  - reflexivity.
+  - lia.
+  - reflexivity.
+  - repeat split.
+  - split; [reflexivity|]. split; [reflexivity|]. split; [apply ex_R_new|reflexivity].
+Qed.
+
+(* the three theorems applied to these values *)
+Example ex_scheme_start_step idna_raw :
+  out_rel ex_inp false (Some ex_sbase)
+    (mstep idna_raw default_cfg ex_inp (Some ex_base) None (mk SchemeStart (-1) false [] false false false (empty_url [97;58])))
+    (sstep idna_raw default_cfg ex_inp (Some ex_sbase) None (SB.mkM SU.new_url SB.SchemeStartState [] false false false 0)).
+Proof.
+  apply (sim_scheme_start idna_raw default_cfg ex_inp (Some ex_base) (Some ex_sbase) None);
+    [reflexivity|exact ex_before_scheme_start].
+Qed.
+
+Example ex_scheme_step idna_raw :
+  out_rel ex_inp false (Some ex_sbase)
+    (mstep idna_raw default_cfg ex_inp (Some ex_base) None (mk Scheme 0 false [97] false false false (empty_url [97;58])))
+    (sstep idna_raw default_cfg ex_inp (Some ex_sbase) None (SB.mkM SU.new_url SB.SchemeState [97] false false false 1)).
+Proof.
+  apply (sim_scheme idna_raw default_cfg std_cfg_default ex_inp (Some ex_base) (Some ex_sbase) None
+           ex_base_rel ex_base_wf); [reflexivity|exact ex_before_scheme].
+Qed.
+
+Example ex_no_scheme_step idna_raw :
+  out_rel ex_inp false (Some ex_sbase)
+    (mstep idna_raw default_cfg ex_inp (Some ex_base) None (mk NoScheme (-1) false [] false false false (empty_url [97;58])))
+    (sstep idna_raw default_cfg ex_inp (Some ex_sbase) None (SB.mkM SU.new_url SB.NoSchemeState [] false false false 0)).
+Proof.
+  apply (sim_no_scheme idna_raw default_cfg ex_inp (Some ex_base) (Some ex_sbase) None ex_base_rel);
+    [reflexivity|exact ex_before_no_scheme].
+Qed.
+
+
 Print Assumptions sim_scheme_start.
 Print Assumptions sim_scheme.
 Print Assumptions sim_no_scheme.
+Check sim_scheme_start.
+Check sim_scheme.
+Check sim_no_scheme.
